@@ -28,7 +28,9 @@ RULE = (
     "value is only right if reload/no-reload is decided correctly (fresh value differs from the value held before, stale value differs from the "
     "database, pending value survives a partial expire/refresh of a sibling attribute, or ObjectDeletedError). The select may also be a populate_existing statement "
     "whose row carries the key only (from_statement(text)). Sub-check inherit: the same machine on a joined-inheritance SubItem(Item) (one column per table) with populate_existing "
-    "queries against the base class (row lacks the subclass column), the subclass, and a key-only text statement; distinct = canonical JSON of the program"
+    "queries against the base class (row lacks the subclass column), the subclass, and a key-only text statement. Sub-check composite: Shape.start = composite(Point, px, py), "
+    "read (cached) early, then compared with its columns and the database after refresh(obj), refresh(obj, [..]), populate_existing via select option / Query.populate_existing / "
+    "get(populate_existing=True), expire + access, commit/rollback + access; distinct = canonical JSON of the program"
 )
 ASSUMPTIONS = [
     "external writes happen only while the session has no open transaction (right after commit/rollback); SQLite file database, rollback-journal mode",
@@ -708,8 +710,240 @@ def _inherit_programs(draw):
 
 
 
+# ====================================================================== composite attribute
+CATTRS = ["px", "py"]
+
+
+def check_composite(case, ctx):
+    """Shape.start = composite(Point, px, py).  The composite object is cached on the instance once it was read; every
+    refresh-like operation (refresh(obj), refresh(obj, [..]), the populate_existing forms, expire + access, commit + access) must
+    make it agree again with the column attributes, and those with the database."""
+    from sqlalchemy import inspect, select
+    from sqlalchemy.orm import Session
+
+    fam = F.family()
+    Shape, Point = fam.Shape, F.Point
+    n = len(case["rows"])
+    db = {i + 1: {"px": r[0], "py": r[1]} for i, r in enumerate(case["rows"])}
+    committed = {k: dict(v) for k, v in db.items()}
+    cfg = case["cfg"]
+    st_, why = {}, {}
+    classes = set()
+    flags = {"fresh": False, "stale": False, "composite-after-refresh": False}
+    cached = set()  # objects whose composite has been read (so a cached Point exists) since it was last known to be rebuilt
+    in_txn = [False]
+    eng = F.new_db(ctx, fam)
+    rc = F.raw(eng)
+    sess = None
+
+    def mark(k, state, reason):
+        st_[k] = state
+        why[k] = reason
+
+    def flush_model():
+        for (oid, a), v in sorted(st_.items()):
+            if v[0] == "P":
+                in_txn[0] = True
+                if v[2] == NOVAL or v[2] != v[1]:
+                    db[oid][a] = v[1]
+                mark((oid, a), ("L", v[1]), "flush")
+
+    def sql():
+        in_txn[0] = True
+        if cfg["autoflush"]:
+            flush_model()
+
+    def fail(sig, msg, observed=None, expected=None):
+        ctx.note(case, True, classes=classes)
+        raise Violation(sig, msg, observed=observed, expected=expected)
+
+    try:
+        F.raw_insert(rc, "shape", [dict(id=k, **v) for k, v in db.items()])
+        sess = Session(eng, autoflush=cfg["autoflush"], expire_on_commit=cfg["eoc"])
+        objs = {o.id: o for o in sess.scalars(select(Shape).order_by(Shape.id))}
+        in_txn[0] = True
+        prev = {}
+        for oid in objs:
+            for a in CATTRS:
+                mark((oid, a), ("L", db[oid][a]), "initial-load")
+                prev[(oid, a)] = db[oid][a]
+
+        def resolve(oid, a):
+            if st_[(oid, a)][0] == "E" and a not in inspect(objs[oid]).unloaded:
+                mark((oid, a), ("L", db[oid][a]), why[(oid, a)] + "+side-load")
+
+        def read(oid, a, where):
+            was_e = st_[(oid, a)][0] == "E"
+            resolve(oid, a)
+            v = st_[(oid, a)]
+            reason = why[(oid, a)]
+            if v[0] == "E":
+                sql()
+                exp = db[oid][a]
+                mark((oid, a), ("L", exp), "expired-load")
+            else:
+                exp = v[1]
+                if v[0] == "L" and not was_e and db[oid][a] != exp:
+                    flags["stale"] = True
+            if was_e and prev[(oid, a)] != exp:
+                flags["fresh"] = True
+            got = getattr(objs[oid], a)
+            if got != exp:
+                fail(f"C46/composite/column-read/{v[0]}-after-{reason}/value", f"{where}: Shape#{oid}.{a} (model state {v[0]} since {reason}) is {got!r}, expected {exp!r}; database {db[oid]}",
+                     observed=got, expected=exp)
+            prev[(oid, a)] = got
+            return got
+
+        def read_composite(oid, where, after=None):
+            reasons = sorted({why[(oid, a)] for a in CATTRS})
+            x, y = read(oid, "px", where), read(oid, "py", where)
+            got = objs[oid].start
+            if after and oid in cached:
+                flags["composite-after-refresh"] = True
+                classes.add("composite-read-after-" + after)
+            cached.add(oid)
+            if got is None or (got.x, got.y) != (x, y):
+                fail(f"C46/composite/stale-after-{(after or reasons[-1]).split('(')[0].split('+')[0]}",
+                     f"{where}: Shape#{oid}.start is {got!r} but its columns are px={x!r}, py={y!r} (column states since {reasons}); database {db[oid]}",
+                     observed=repr(got), expected=f"Point({x!r}, {y!r})")
+
+        last_refresh = {}  # oid -> name of the last refresh-like operation since the composite was read
+        for ei, ep in enumerate(case["epochs"]):
+            if ei > 0:
+                for xo in ep["ext"]:
+                    oid, a = xo[0] % n + 1, CATTRS[xo[1] % 2]
+                    rc.execute(f"UPDATE shape SET {a} = ? WHERE id = ?", (xo[2], oid))
+                    db[oid][a] = xo[2]
+                committed = {k: dict(v) for k, v in db.items()}
+            for oi, op in enumerate(ep["ops"]):
+                where = f"epoch {ei} op {oi} {op}"
+                k = op[0]
+                if k == "fl":
+                    sess.flush()
+                    flush_model()
+                    continue
+                if k == "q":
+                    how = ["plain", "pe-select", "pe-query", "pe-get", "pe-select", "pe-query"][op[1] % 6]
+                    sql()
+                    if how == "plain":
+                        got = sess.scalars(select(Shape).order_by(Shape.id)).all()
+                    elif how == "pe-select":
+                        got = sess.scalars(select(Shape).order_by(Shape.id).execution_options(populate_existing=True)).all()
+                    elif how == "pe-query":
+                        got = sess.query(Shape).populate_existing().order_by(Shape.id).all()
+                    else:
+                        got = [sess.get(Shape, oid, populate_existing=True) for oid in sorted(objs)]
+                    if [id(o) for o in got] != [id(objs[i]) for i in sorted(objs)]:
+                        fail("C46/composite/query/result-identities", f"{where}: query returned {got}")
+                    if how != "plain":
+                        for oid in objs:
+                            for a in CATTRS:
+                                mark((oid, a), ("L", db[oid][a]), "populate_existing")
+                            last_refresh[oid] = "populate_existing-" + how[3:]
+                    classes.add("query-" + how)
+                    continue
+                oid = op[1] % n + 1
+                obj = objs[oid]
+                if k == "r":
+                    read(oid, CATTRS[op[2] % 2], where)
+                elif k == "rc":
+                    read_composite(oid, where, last_refresh.pop(oid, None))
+                elif k == "sc":
+                    obj.start = Point(op[2], op[3])
+                    for a, val in zip(CATTRS, (op[2], op[3])):
+                        v = st_[(oid, a)]
+                        mark((oid, a), ("P", val, v[1] if v[0] == "L" else (v[2] if v[0] == "P" else NOVAL)), "set-composite")
+                        prev[(oid, a)] = val
+                    in_txn[0] = True
+                    last_refresh.pop(oid, None)
+                elif k == "e":
+                    attrs = [a for i, a in enumerate(CATTRS) if op[2] >> i & 1]
+                    sess.expire(obj, attrs or None)
+                    for a in attrs or CATTRS:
+                        mark((oid, a), ("E",), "expire-partial" if attrs else "expire")
+                    last_refresh[oid] = "expire-partial" if attrs else "expire"
+                elif k == "f":
+                    attrs = [a for i, a in enumerate(CATTRS) if op[2] >> i & 1]
+                    for a in attrs or CATTRS:
+                        mark((oid, a), ("E",), "refresh")
+                    sql()
+                    sess.refresh(obj, attrs or None)
+                    for a in attrs or CATTRS:
+                        mark((oid, a), ("L", db[oid][a]), "refresh-partial" if attrs else "refresh")
+                    last_refresh[oid] = "refresh-partial" if attrs else "refresh"
+                else:
+                    raise AssertionError(op)
+                classes.add({"r": "read-column", "rc": "read-composite", "sc": "set-composite", "e": "expire", "f": "refresh"}[k])
+            if ep["end"] == "commit":
+                sess.commit()
+                flush_model()
+                committed = {k: dict(v) for k, v in db.items()}
+                if cfg["eoc"]:
+                    for key in st_:
+                        mark(key, ("E",), "commit-expire")
+                    for oid in objs:
+                        last_refresh[oid] = "commit"
+                in_txn[0] = False
+            else:
+                sess.rollback()
+                if in_txn[0]:
+                    db = {k: dict(v) for k, v in committed.items()}
+                    for key in st_:
+                        mark(key, ("E",), "rollback")
+                    for oid in objs:
+                        last_refresh[oid] = "rollback"
+                in_txn[0] = False
+            for key in st_:
+                resolve(key[0], key[1])
+            got_rows = {r[0]: {"px": r[1], "py": r[2]} for r in rc.execute("SELECT id, px, py FROM shape")}
+            if got_rows != committed:
+                fail(f"C46/composite/db-after-{ep['end']}", f"epoch {ei}: rows {got_rows} != model {committed}", observed=got_rows, expected=committed)
+        for oid in sorted(objs):
+            read_composite(oid, "final read", last_refresh.pop(oid, None))
+        for f, v in flags.items():
+            if v:
+                classes.add("nt-" + f)
+        ctx.note(case, flags["composite-after-refresh"] and (flags["fresh"] or flags["stale"]), classes=classes)
+    finally:
+        if sess is not None:
+            sess.close()
+        rc.close()
+        F.drop_db(eng)
+
+
+@st.composite
+def _composite_programs(draw):
+    n = draw(st.integers(1, 2))
+    oi = st.integers(0, n - 1)
+    epochs = []
+    for ei in range(draw(st.integers(2, 4))):
+        ext = [[draw(oi), draw(st.integers(0, 1)), draw(st.integers(4, 9))] for _ in range(draw(st.integers(1, 3)))] if ei else []
+        ops = []
+        for j in range(draw(st.integers(1, 6))):
+            k = draw(st.sampled_from(["rc", "q", "rc", "f", "e", "r", "sc", "q", "rc", "fl"]))
+            if k == "q":
+                ops.append(["q", draw(st.integers(0, 5))])
+            elif k == "r":
+                ops.append(["r", draw(oi), draw(st.integers(0, 1))])
+            elif k == "rc":
+                ops.append(["rc", draw(oi)])
+            elif k == "sc":
+                ops.append(["sc", draw(oi), draw(_val), draw(_val)])
+            elif k in ("e", "f"):
+                ops.append([k, draw(oi), draw(st.integers(0, 3))])
+            else:
+                ops.append(["fl"])
+        if ei == 0:
+            ops.insert(0, ["rc", draw(oi)])  # the composite is read (cached) early: that is what has to be rebuilt later
+        epochs.append({"ext": ext, "ops": ops, "end": draw(st.sampled_from(["commit", "commit", "commit", "rollback"]))})
+    return {"cfg": {"autoflush": draw(st.booleans()), "eoc": draw(st.sampled_from([False, False, True]))}, "rows": [[draw(_val), draw(_val)] for _ in range(n)], "epochs": epochs}
+
+
+
+
 def subs(tier):
     return [
         Generated("histories", check, strategy=_programs(), quick=2400, thorough=80000),
         Generated("inherit", check_inherit, strategy=_inherit_programs(), quick=900, thorough=30000),
+        Generated("composite", check_composite, strategy=_composite_programs(), quick=900, thorough=30000),
     ]
